@@ -44,6 +44,15 @@ def setup(seed: int = 0) -> str:
     random.seed(seed)
     import biogeme
 
+    # import the heavy modules once in the parent: forked children then start in milliseconds
+    import pandas  # noqa
+    import biogeme.biogeme  # noqa
+    import biogeme.database  # noqa
+    import biogeme.expressions  # noqa
+    import biogeme.catalog  # noqa
+    import biogeme.models  # noqa
+    import biogeme.results  # noqa
+
     here = os.path.realpath(os.path.dirname(biogeme.__file__))
     if not here.startswith(os.path.realpath(src)):
         raise MachineryError(f'biogeme imported from {here}, not from {src}')
